@@ -14,6 +14,10 @@ use std::cmp::Ordering;
 pub enum Case {
     Tri { a: D, b: D, c: D },
     Int { d: D, i: I },
+    /// rkyv: the three values archived inside containers (a Vec, a struct behind a u8 field),
+    /// so that the archived Decimals do not sit at the start of the buffer; executed in a child
+    /// process because a failing validation may abort the process instead of unwinding
+    Containers { a: D, b: D, c: D },
 }
 
 pub struct C08;
@@ -64,6 +68,80 @@ fn related(a: D, kind: u8, k: u8, d: i128, free: D) -> D {
     }
 }
 
+#[derive(rkyv::Archive, rkyv::Serialize, rkyv::Deserialize)]
+#[archive(check_bytes)]
+struct Holder {
+    tag: u8,
+    amount: Decimal,
+    other: Decimal,
+}
+
+fn ord_name(o: Ordering) -> &'static str {
+    match o {
+        Ordering::Less => "Less",
+        Ordering::Equal => "Equal",
+        Ordering::Greater => "Greater",
+    }
+}
+
+/// what the child must print for (a, b, c)
+fn containers_expected(a: D, b: D, c: D) -> String {
+    let r = |d: D| format!("{} {}", d.c, d.s);
+    let cmp = |x: D, y: D| ord_name(exact_cmp((x.c, x.s), (y.c, y.s)));
+    format!(
+        "vec: {} | {} | {}; cmp: {} {} {}; mixed: {} {}; holder: {} | {}; cmp: {}",
+        r(a), r(b), r(c), cmp(a, b), cmp(b, c), cmp(a, c), cmp(a, b), cmp(c, b), r(a), r(b), cmp(a, b)
+    )
+}
+
+/// `vcheck c08-exec`: archive the case's values inside containers, validate, read back, compare
+pub fn exec_child() {
+    let mut input = String::new();
+    std::io::Read::read_to_string(&mut std::io::stdin(), &mut input).expect("read case");
+    let case: Case = serde_json::from_str(&input).expect("parse case");
+    let (a, b, c) = match case {
+        Case::Containers { a, b, c } => (a, b, c),
+        _ => return,
+    };
+    let r = |d: &ArchivedDecimal| format!("{} {}", d.coefficient(), d.n_frac_digits());
+    let v = vec![a.dec(), b.dec(), c.dec()];
+    let bytes = rkyv::to_bytes::<_, 256>(&v).expect("to_bytes");
+    let av = rkyv::check_archived_root::<Vec<Decimal>>(&bytes[..]).expect("check_archived_root::<Vec<Decimal>>");
+    let back: Vec<Decimal> = av.deserialize(&mut rkyv::Infallible).expect("deserialize");
+    assert!(back.iter().zip(v.iter()).all(|(x, y)| x.coefficient() == y.coefficient() && x.n_frac_digits() == y.n_frac_digits()), "Vec round trip");
+    let h = Holder { tag: 7, amount: a.dec(), other: b.dec() };
+    let hb = rkyv::to_bytes::<_, 256>(&h).expect("to_bytes");
+    let ah = rkyv::check_archived_root::<Holder>(&hb[..]).expect("check_archived_root::<Holder>");
+    let hback: Holder = ah.deserialize(&mut rkyv::Infallible).expect("deserialize");
+    assert!(hback.tag == 7 && hback.amount.coefficient() == a.c && hback.other.n_frac_digits() == b.s, "struct round trip");
+    println!(
+        "vec: {} | {} | {}; cmp: {} {} {}; mixed: {} {}; holder: {} | {}; cmp: {}",
+        r(&av[0]), r(&av[1]), r(&av[2]),
+        ord_name(av[0].cmp(&av[1])), ord_name(av[1].cmp(&av[2])), ord_name(av[0].cmp(&av[2])),
+        ord_name(v[0].partial_cmp(&av[1]).expect("partial_cmp")), ord_name(av[2].partial_cmp(&v[1]).expect("partial_cmp")),
+        r(&ah.amount), r(&ah.other), ord_name(ah.amount.cmp(&ah.other))
+    );
+}
+
+fn containers_in_child(case: &Case) -> Result<String, String> {
+    use std::io::Write;
+    use std::process::{Command, Stdio};
+    let exe = std::env::current_exe().expect("current exe");
+    let mut last = String::new();
+    // a child that dies is retried: only a death that repeats is attributed to the code under test
+    for _ in 0..3 {
+        let mut child = Command::new(&exe).arg("c08-exec").stdin(Stdio::piped()).stdout(Stdio::piped()).stderr(Stdio::piped()).spawn().expect("spawn c08-exec");
+        child.stdin.take().unwrap().write_all(serde_json::to_string(case).unwrap().as_bytes()).expect("write case");
+        let out = child.wait_with_output().expect("wait c08-exec");
+        if out.status.success() {
+            return Ok(String::from_utf8_lossy(&out.stdout).trim().to_string());
+        }
+        let err = String::from_utf8_lossy(&out.stderr);
+        last = format!("{} - {}", out.status, err.lines().filter(|l| !l.trim().is_empty() && !l.starts_with("  ") && !l.starts_with("note:") && !l.starts_with("stack")).take(3).collect::<Vec<_>>().join(" / "));
+    }
+    Err(last)
+}
+
 impl Prop for C08 {
     type Case = Case;
     fn id(&self) -> &'static str {
@@ -72,7 +150,7 @@ impl Prop for C08 {
     fn rule(&self) -> String {
         "Generated: triples (a, b, c) of Decimal representations - independent, same value at different scales (c*10^k), adjacent values (+-1 ulp at the finer scale), pairs whose scale alignment overflows i128 with every sign combination including zero - and (Decimal, integer) pairs for all 9 integer types incl. integers whose scaling by 10^p overflows and integers floor(B/10^s)+-1 for machine boundaries B (2^127-1, 2^64, 2^63, 2^32, 2^31) against the same integer written with s fractional zeros +-1 ulp. \
          For every ordered pair: ==, !=, <, <=, >, >=, partial_cmp (never None), cmp (never panics), min, max against the sign of a*10^q - b*10^p in big integers; laws on the triple (reflexive, antisymmetric, transitive, cmp consistent with ==). \
-         rkyv: to_bytes -> check_archived_root -> deserialize is the identity on (coefficient, scale); Archived/Archived and Archived/Decimal comparisons in both orders equal the comparison of the originals. \
+         rkyv: to_bytes -> check_archived_root -> deserialize is the identity on (coefficient, scale); Archived/Archived and Archived/Decimal comparisons in both orders (all six operators) equal the comparison of the originals; the same for values archived inside a Vec<Decimal> and inside a struct behind a u8 field (validated with check_archived_root, in a child process). \
          Non-trivial: the two operands carry different scales. Distinct: hash of the case."
             .into()
     }
@@ -90,14 +168,18 @@ impl Prop for C08 {
     }
     fn strategy(&self, _tier: Tier) -> BoxedStrategy<Case> {
         prop_oneof![
-            6 => (arb_d(), arb_d(), arb_d(), 0u8..5, 0u8..5, 0u8..=18, 0u8..=18, -2i128..=2, -2i128..=2).prop_map(|(a, fb, fc, kb, kc, k1, k2, d1, d2)| {
+            384 => (arb_d(), arb_d(), arb_d(), 0u8..5, 0u8..5, 0u8..=18, 0u8..=18, -2i128..=2, -2i128..=2).prop_map(|(a, fb, fc, kb, kc, k1, k2, d1, d2)| {
                 let b = related(a, kb, k1, d1, fb);
                 let c = related(b, kc, k2, d2, fc);
                 Case::Tri { a, b, c }
             }),
-            3 => (arb_d(), arb_int_full()).prop_map(|(d, i)| Case::Int { d, i }),
+            2 => (arb_d(), arb_d(), 0u8..5, 0u8..=18, -2i128..=2, arb_d()).prop_map(|(a, fb, kb, k1, d1, c)| {
+                let b = related(a, kb, k1, d1, fb);
+                Case::Containers { a, b, c }
+            }),
+            192 => (arb_d(), arb_int_full()).prop_map(|(d, i)| Case::Int { d, i }),
             // integer equal / adjacent to the decimal's value, or overflowing when scaled
-            3 => (arb_int(), 0u8..=18, -1i128..=1, 0u8..3).prop_map(|(i, s, off, kind)| {
+            192 => (arb_int(), 0u8..=18, -1i128..=1, 0u8..3).prop_map(|(i, s, off, kind)| {
                 let d = match kind {
                     0 => match i.v.checked_mul(10i128.pow(s as u32)).and_then(|c| c.checked_add(off)) {
                         Some(c) if c != i128::MIN => D::new(c, s),
@@ -111,7 +193,7 @@ impl Prop for C08 {
             // the integer sits exactly where its scaling by 10^s reaches a machine boundary:
             // i = floor(B / 10^s) + d0 for B in {2^127-1, 2^64, 2^64-1, 2^63, 2^63-1, 2^32, 2^31},
             // the Decimal is i * 10^s + e at scale s (the same integer written with s fractional zeros, +-1 ulp)
-            2 => (0u8..7, 1u8..=18, -1i128..=1, -1i128..=1, any::<bool>(), 0u8..9).prop_map(|(b, s, d0, e, neg, tyk)| {
+            128 => (0u8..7, 1u8..=18, -1i128..=1, -1i128..=1, any::<bool>(), 0u8..9).prop_map(|(b, s, d0, e, neg, tyk)| {
                 let bound: i128 = match b {
                     0 => MAXC,
                     1 => 1i128 << 64,
@@ -139,7 +221,7 @@ impl Prop for C08 {
         .boxed()
     }
     fn mandatory_labels(&self, _tier: Tier) -> Vec<&'static str> {
-        vec!["equal-diff-scale", "align-overflow", "adjacent", "scale-diff", "int", "int-scale-overflow", "less", "greater", "equal"]
+        vec!["equal-diff-scale", "align-overflow", "adjacent", "scale-diff", "int", "int-scale-overflow", "less", "greater", "equal", "rkyv-containers"]
     }
     fn builtin_corpus(&self) -> Vec<Case> {
         vec![
@@ -147,6 +229,8 @@ impl Prop for C08 {
             Case::Tri { a: D::new(0, 0), b: D::new(0, 18), c: D::new(-MAXC, 0) },
             Case::Tri { a: D::new(0, 18), b: D::new(MAXC, 0), c: D::new(-1, 18) },
             Case::Tri { a: D::new(34, 1), b: D::new(3400, 3), c: D::new(3401, 3) },
+            Case::Containers { a: D::new(34, 1), b: D::new(3400, 3), c: D::new(-3401, 3) },
+            Case::Containers { a: D::new(MAXC, 0), b: D::new(-MAXC, 18), c: D::new(0, 7) },
             Case::Int { d: D::new(MAXC, 18), i: I { ty: 6, v: u64::MAX as i128 } },
             Case::Int { d: D::new(-MAXC, 18), i: I { ty: 7, v: i64::MIN as i128 } },
             Case::Int { d: D::new(0, 18), i: I { ty: 8, v: -MAXC } },
@@ -156,6 +240,17 @@ impl Prop for C08 {
     fn check(&self, case: &Case, ctx: &mut Ctx) {
         let _ambient = ambient_mode(case, ctx);
         match *case {
+            Case::Containers { a, b, c } => {
+                ctx.label("rkyv-containers");
+                ctx.nontrivial();
+                ctx.sub();
+                let want = containers_expected(a, b, c);
+                match containers_in_child(case) {
+                    Ok(got) if got == want => {}
+                    Ok(got) => ctx.fail("C08/rkyv", format!("{case:?}: archived inside a Vec / a struct: expected [{want}], observed [{got}]")),
+                    Err(e) => ctx.fail("C08/rkyv-validation-aborts", format!("{case:?}: archiving the values inside a Vec<Decimal> and a struct {{ u8, Decimal, Decimal }}, validating and reading them back ended the process: {e}")),
+                }
+            }
             Case::Tri { a, b, c } => {
                 let v = [a, b, c];
                 let mut obs = [[Ordering::Equal; 3]; 3];
